@@ -7,7 +7,7 @@ R3 language plumbing: every mdhd language field derives from metadata.language w
 Not decided: correctness of the days->Y-M-D conversion and of the 5-bit packing (arithmetic); termination for huge times is C12."""
 from .. import boxcheck as B
 from .. import layout as L
-from .. import mir
+from .. import mir, sym
 from . import c19
 
 EXPLANATION = (
@@ -133,7 +133,81 @@ def setter_rule(prog, run):
     run.floor("R5", n, 3, "builder methods that write the metadata")
 
 
+def language_rule(prog, run, R="R6"):
+    """ISO/IEC 14496-12 8.4.2.3: language is three 5-bit fields, each the character's difference from 0x60, packed
+    (c1 << 10) | (c2 << 5) | c3 with a leading pad bit 0.  Every function `fn(&str) -> [u8; 2]` that an mdhd builder calls is a
+    language encoder; its return expression (one symbolic expression over the string's characters) is evaluated for all 26^3
+    lower-case codes - the property's whole domain - and compared with the formula."""
+    u = prog.lib
+    encs = [f for f, b in u.bodies.items() if not b["in_test_cfg"] and b["argc"] == 1 and b["locals"][1]["ty"] in ("&str", "&'_ str") and b["locals"][0]["ty"] == "[u8; 2]"]
+    n = 0
+    for f in sorted(encs):
+        b = u.bodies[f]
+        e = sym.expr_local(b, 0)
+
+        def ev(x, cs):
+            h = x[0]
+            if h == "const":
+                v = x[1]
+                return v if isinstance(v, int) else (ord(v.strip("'")) if isinstance(v, str) and len(v.strip("'")) == 1 else None)
+            if h in ("ref",):
+                return ev(x[1], cs)
+            if h in ("refplace", "load") and x[1] == "arg1":
+                return list(cs)
+            if h == "cast":
+                v = ev(x[4], cs)
+                return v & 0xFFFF if x[3] == "u16" else (v & 0xFF if x[3] == "u8" else v)
+            if h == "bin":
+                a, c = ev(x[2], cs), ev(x[3], cs)
+                return {"BitAnd": a & c, "BitOr": a | c, "Shl": (a << c) & 0xFFFF, "Shr": a >> c, "Add": a + c, "Sub": a - c, "BitXor": a ^ c}[x[1]]
+            if h == "proj":
+                return ev(x[1], cs)
+            if h == "call":
+                last = x[1].split("::")[-1]
+                a = [ev(y, cs) for y in x[2]]
+                if last in ("chars", "collect", "deref", "copied", "cloned", "into_iter", "iter", "as_slice", "bytes", "as_bytes", "to_be_bytes", "from", "into", "to_vec"):
+                    return a[0]
+                if last == "take":
+                    return a[0][:a[1]]
+                if last == "first":
+                    return ("some", a[0][0]) if a[0] else ("none",)
+                if last == "get":
+                    return ("some", a[0][a[1]]) if a[1] < len(a[0]) else ("none",)
+                if last == "nth":
+                    return ("some", a[0][a[1]]) if a[1] < len(a[0]) else ("none",)
+                if last == "unwrap_or":
+                    return a[0][1] if a[0][0] == "some" else a[1]
+                if last == "saturating_sub":
+                    return max(a[0] - a[1], 0)
+                if last == "wrapping_sub":
+                    return (a[0] - a[1]) & 0xFFFF
+            raise ValueError("cannot evaluate %s" % (x[:2],))
+        bad = None
+        try:
+            for c1 in range(97, 123):
+                for c2 in range(97, 123):
+                    for c3 in range(97, 123):
+                        got = ev(e, (c1, c2, c3))
+                        want = ((c1 - 0x60) << 10) | ((c2 - 0x60) << 5) | (c3 - 0x60)
+                        if got != want:
+                            bad = ("%c%c%c" % (c1, c2, c3), got, want)
+                            break
+                    if bad:
+                        break
+                if bad:
+                    break
+        except (ValueError, KeyError, IndexError, TypeError) as ex:
+            run.bad(R, "language packing %s" % mir.norm(f), "cannot evaluate the language encoder (fail closed): %s" % ex, mir.loc_of(b))
+            continue
+        n += 1
+        run.check(bad is None, R, "language packing %s" % mir.norm(f), "== ((c1-0x60)<<10)|((c2-0x60)<<5)|(c3-0x60) for all 26^3 lower-case codes",
+                  "for language `%s` the encoder yields 0x%04x, ISO/IEC 14496-12 8.4.2.3 says 0x%04x: the code cannot be recovered from the media header" % (bad if bad else ("", 0, 0)), mir.loc_of(b))
+    run.floor(R, n, 2, "language encoders (progressive and fragmented)")
+
+
 def check(prog, run):
+    run.rule("R6", "language packing: every `fn(&str) -> [u8; 2]` encoder equals the ISO/IEC 14496-12 formula on all 26^3 lower-case codes (complete enumeration of the extracted expression)")
+    language_rule(prog, run)
     run.rule("R5", "metadata setters are independent: single-attribute setters update in place; only with_metadata(Metadata) replaces")
     setter_rule(prog, run)
     run.rule("R4", "creation-date conversion: (year, month, day) expressions == proleptic Gregorian calendar on every day of a 400-year era (exhaustive evaluation of the extracted expressions), affine in the era")
